@@ -396,6 +396,29 @@ func C09(p *ir.Program, r *report.R) {
 	// the addresses with a positive count, so revert must decrement and delete only at zero.
 	journalDirtyCounts(c)
 
+	// ---- a reverted self-destruct puts every holding back where it was ---------------------------------------------
+	// suicideChange remembers TokenBalances(): a list in which the native coin appears only when its
+	// balance was positive, at no fixed position. revert restores the native balance from the entry whose
+	// token address is the empty address and a token balance from every other entry - decided per entry,
+	// not by position.
+	{
+		rv := p.Func("state", "suicideChange.revert")
+		rn := "state.(suicideChange).revert"
+		nb, nt := 0, 0
+		for _, call := range ir.Calls(rv, "state.stateObject.setBalance") {
+			nb++
+			ent := strings.TrimSuffix(Arg(call, 1), ".Value")
+			c.Guards(rn, "restore native", call.(ssa.Instruction), G{"entry-is-the-native-coin", "eq(" + ent + ".TokenAddr,common.EmptyAddress) || eq(common.EmptyAddress," + ent + ".TokenAddr)"})
+		}
+		for _, call := range ir.Calls(rv, "state.stateObject.setTokenBalance") {
+			nt++
+			ent := strings.TrimSuffix(Arg(call, 2), ".Value")
+			r.Check("K1", rn+"/restore token/own-address", p.InstrPos(call.(ssa.Instruction)), Arg(call, 1) == ent+".TokenAddr", "the token restored is the entry's own: "+Arg(call, 1))
+			c.Guards(rn, "restore token", call.(ssa.Instruction), G{"entry-is-a-token", "!eq(" + ent + ".TokenAddr,common.EmptyAddress) || !eq(common.EmptyAddress," + ent + ".TokenAddr)"})
+		}
+		r.Check("K1", rn+"/restores", p.Pos(rv.Pos()), nb >= 1 && nt >= 1, fmt.Sprintf("%d native and %d token restores", nb, nt))
+	}
+
 	// ---- storage values handed out by the state are never written in place ---------------------------
 	// GetState returns the cached slice itself (originStorage/dirtyStorage share it, Storage.Copy is
 	// shallow, trie value nodes are shared): appending into it, copying into it or storing an element
